@@ -97,6 +97,74 @@ int run(const Args& A) {
                 if ((i * 7 + j) % 4 == 3) doOp(M, "EQUAL", EQUAL, i, j, B.F, "FB");
                 if ((i * n + j) % 97 == 0 && r.chance(1, 2)) { E.F->removeAllComputeTableEntries(); STATS.hit("clear"); }
             }
+        // boolean sets, a relation, images and reachability (keys with level items, saturation's two entry types),
+        // copies between labelings - all sharing the same tables in the monolithic styles
+        {
+            Kind ks; ks.rt = range_type::BOOLEAN; ks.rr = M.k.rr;
+            Kind kr; kr.rel = true; kr.rt = range_type::BOOLEAN; kr.rr = reduction_rule::IDENTITY_REDUCED;
+            forest* FS = makeForest(D.d, ks, Pol());
+            forest* FR = makeForest(D.d, kr, Pol());
+            emitForest("FS", FS, ks, Pol());
+            emitForest("FR", FR, kr, Pol());
+            int ns = 10;
+            std::vector<dd_edge> S, R;
+            for (int i = 0; i < ns; i++) {
+                S.emplace_back(FS);
+                buildFromTable(D, FS, ks, randomTable(r, D, ks, i == 0 ? 3 : 10 + 8 * unsigned(i)), S.back());
+                emitTable("s" + std::to_string(i), "FS", D, S.back());
+            }
+            for (int i = 0; i < 4; i++) {
+                // sparse relations: a few random transitions plus, sometimes, an identity part
+                std::vector<Val> t(D.card(true), Val::boolean(false));
+                int nt = r.range(3, 14);
+                for (int q = 0; q < nt; q++) t[r.below(unsigned(t.size()))] = Val::boolean(true);
+                R.emplace_back(FR);
+                buildFromTable(D, FR, kr, t, R.back());
+                emitTable("r" + std::to_string(i), "FR", D, R.back());
+            }
+            auto un = [&](const char* opn, binary_builtin0 op, int i, int j) {
+                dd_edge res(FS); std::string rn = "R" + std::to_string(serial++);
+                emit("resforest FS");
+                apply(op, S[size_t(i)], S[size_t(j)], res);
+                emit("op %s %s s%d s%d", rn.c_str(), opn, i, j);
+                emitTable(rn, "FS", D, res); STATS.hit(std::string("op.") + opn);
+            };
+            for (int i = 0; i < ns; i++) for (int j = 0; j < ns; j++) {
+                un("UNION", UNION, i, j); un("INTERSECTION", INTERSECTION, i, j); un("DIFFERENCE", DIFFERENCE, i, j);
+            }
+            for (int i = 0; i < ns; i++) for (int q = 0; q < 4; q++) {
+                for (int pass = 0; pass < 2; pass++) {
+                    {   dd_edge res(FS); std::string rn = "R" + std::to_string(serial++);
+                        emit("resforest FS");
+                        apply(pass ? PRE_IMAGE : POST_IMAGE, S[size_t(i)], R[size_t(q)], res);
+                        emit("op %s %s s%d r%d", rn.c_str(), pass ? "PRE_IMAGE" : "POST_IMAGE", i, q);
+                        emitTable(rn, "FS", D, res); STATS.hit(pass ? "op.PRE_IMAGE" : "op.POST_IMAGE"); }
+                    if (i < 5) {
+                        dd_edge res(FS); std::string rn = "R" + std::to_string(serial++);
+                        emit("resforest FS");
+                        apply(REACHABLE_TRAD_NOFS(pass == 0), S[size_t(i)], R[size_t(q)], res);
+                        emit("op %s %s s%d r%d", rn.c_str(), pass ? "REACH_NOFS_BWD" : "REACH_NOFS_FWD", i, q);
+                        emitTable(rn, "FS", D, res); STATS.hit("op.REACH_NOFS");
+                        dd_edge res2(FS); std::string rn2 = "R" + std::to_string(serial++);
+                        emit("resforest FS");
+                        apply(REACHABLE_SATUR(pass == 0), S[size_t(i)], R[size_t(q)], res2);
+                        emit("op %s %s s%d r%d", rn2.c_str(), pass ? "REACH_SAT_BWD" : "REACH_SAT_FWD", i, q);
+                        emitTable(rn2, "FS", D, res2); STATS.hit("op.REACH_SAT");
+                    }
+                }
+            }
+            // copies MT int -> EV+ and back
+            for (int i = 0; i < n; i += 3) {
+                dd_edge res(E.F); std::string rn = "R" + std::to_string(serial++);
+                emit("resforest FE");
+                apply(COPY, M.fn[size_t(i)], res);
+                emit("op %s COPY %s", rn.c_str(), M.names[size_t(i)].c_str());
+                emitTable(rn, "FE", D, res); STATS.hit("op.COPY");
+            }
+            emitAudit("FS", FS, ks);
+            S.clear(); R.clear();
+            forest::destroy(FS); forest::destroy(FR);
+        }
         // second pass over a sample: now every answer may come from the table
         for (int t = 0; t < n * 4; t++) {
             int i = r.below(unsigned(n)), j = r.below(unsigned(n));
